@@ -38,7 +38,10 @@ Obl(e) ==
          <<"cross-verifies", e.ok>> >>
     [] e.op = "Entropy" -> <<
          <<"quiet", e.panic = "">>,
-         <<"outcome-allowed", e.outcome \in AllowedOut(e.avail, e.need, IF e.coin THEN {0, 1} ELSE {0})>>,
+         \* Named tolerance: a failure that happens ONCE and hits the very first read is invisible when that read is the
+         \* unlogged one-byte coin read (MaybeReadByte ignores what it reads, errors included - in crypto/ecdsa as well)
+         <<"outcome-allowed", e.outcome \in AllowedOut(e.avail, e.need, IF e.coin THEN {0, 1} ELSE {0})
+                              \/ (e.transient /\ e.coin /\ (e.avail = 0 \/ (e.avail = 1 /\ e.err_with_data)))>>,
          <<"error-means-no-output", e.outcome = "error" => e.nil_out>>,
          <<"ok-means-valid-output", e.outcome = "ok" => e.valid_out>> >>
     [] e.op = "EdKey" -> << <<"quiet", e.panic = "">>, <<"key-equals-std", e.same>> >>
